@@ -138,7 +138,13 @@ func (lex *Lexer) readToken() []*token.Token {
 		// silently rewrote the one-symbol form into the two-symbol form --
 		// the formatter changing the program it was asked to tidy.  Found by
 		// FuzzFormatCompact on "(------ )".
-		if c, ok := lex.scanner.Peek(); !ok || unicode.IsSpace(c) || c == ')' || c == ']' {
+		//
+		// The same holds in front of every other rune that can only START a
+		// new token -- an opening bracket, a quote, a string, a comment.
+		// "(--;c\n)" read as (- -) but "(-- ;c\n)" as (--), and "(f --'a)" as
+		// (f - - 'a) but "(f -- 'a)" as (f -- 'a): inserting whitespace
+		// between two complete expressions changed the tree.
+		if c, ok := lex.scanner.Peek(); !ok || unicode.IsSpace(c) || strings.ContainsRune(")](['\";", c) {
 			return lex.emitText(token.SYMBOL)
 		}
 		return lex.emitText(token.NEGATIVE)
